@@ -345,9 +345,13 @@ class Store:
                     logging.warning(
                         "Unable to parse file %s for indexing, skipping.", name
                     )
-                    file_values = {}
+                    # Remember that this file can't match anything, like
+                    # the naive implementation does.
+                    file_values = None
                 self.index.add_values(name, etag, file_values)
-                if filter.check_from_indexes(name, file_values):
+                if file_values is not None and filter.check_from_indexes(
+                    name, file_values
+                ):
                     yield (name, file, etag)
             else:
                 if file_values is None:
